@@ -258,7 +258,8 @@ func runC17(c *Ctx) {
 								walk(ret.Block(), core.InstrIndex(ret)+1, nil)
 								return
 							}
-							if len(r.Results) == 2 && core.Path(r.Results[1]) == "io.EOF" {
+							if len(r.Results) == 2 && (core.Path(r.Results[1]) == "io.EOF" || isBufferReadErr(r.Results[1])) {
+								// io.EOF itself, or the result of bytes.Buffer.Read, which is io.EOF on an empty buffer
 								bad = P.InstrPos(r)
 							}
 							return
@@ -580,6 +581,22 @@ func checkSplit(c *Ctx, split *ssa.Function) {
 					extraWhy = "the offset term is neither a search result nor len(rest) - len(end)"
 				}
 			}
+			// "the region runs to the end of the data" is only right when no more data can come: while the input
+			// is still open the end mark may simply not have arrived yet
+			for _, vc := range core.ValueCases(t, r.Block()) {
+				if bo, isB := core.StripConv(vc.Val).(*ssa.BinOp); isB && bo.Op == token.SUB {
+					atEnd := false
+					for _, a := range vc.Atoms {
+						if a.LV == ssa.Value(atEOF) && a.Op == "is" {
+							atEnd = true
+						}
+					}
+					if !atEnd {
+						extraOK = false
+						extraWhy = "a region without its end mark is closed at the end of the buffered data although more input can follow (not under atEOF)"
+					}
+				}
+			}
 		}
 		R.Check(extraOK, "C17.token", key+"|advance-at-eof", P.InstrPos(r),
 			"without an end mark at the end of input the region runs to the end: extra = len(rest) - len(end)",
@@ -649,4 +666,14 @@ func constAdvance(v ssa.Value, phi *ssa.Phi, env map[ssa.Value]ssa.Value, depth 
 		}
 	}
 	return 0, false
+}
+
+// isBufferReadErr: the error result of (*bytes.Buffer).Read - io.EOF exactly when the buffer is empty.
+func isBufferReadErr(v ssa.Value) bool {
+	ex, ok := core.StripConv(v).(*ssa.Extract)
+	if !ok || ex.Index != 1 {
+		return false
+	}
+	call, ok := ex.Tuple.(*ssa.Call)
+	return ok && call.Call.StaticCallee() != nil && core.FullName(call.Call.StaticCallee()) == "(*bytes.Buffer).Read"
 }
